@@ -14,8 +14,8 @@ R4  the three parse() pipelines run the same stages after their own grouping ste
 import ast
 
 from ..astutil import call_tail, calls_in, dotted, src, walk_shallow
-from ..genekernel import chrom_parent, gene_interp, mk_feature, mk_feature_collection, mk_gene, mk_transcript
-from ..interp import ClassTok, EnumVal, Obj, Raised, Uninterpretable, module_const
+from ..genekernel import chrom_parent, gene_interp, mk_collection, mk_feature, mk_feature_collection, mk_gene, mk_transcript
+from ..interp import ClassTok, EnumVal, FakeModule, Obj, Raised, Uninterpretable, module_const
 from ..lockernel import run, strands
 from .c05 import GENOME, _report, bases, translate_ref, walker
 from .c07 import consistent_frames
@@ -82,12 +82,13 @@ TX_TYPE = {"protein_coding": "mRNA", "tRNA": "tRNA", None: None}
 GENOME2 = GENOME.translate(str.maketrans("ACGT", "CATG"))  # same length, different bases everywhere
 
 
-def build_gene_obj(it, S, m, par):
+def build_gene_obj(it, S, m, par, tx_qualifiers=None):
     F, B = it.enum("CDSFrame"), it.enum("Biotype")
     nm = {0: "ZERO", 1: "ONE", 2: "TWO"}
     txs = []
     for i, t in enumerate(m["txs"]):
-        kw = dict(transcript_id=f"{m['id']}.t{i}", transcript_symbol=f"{m['id']}.sym{i}", protein_id=f"{m['id']}.p{i}" if t["cds"] else None,
+        kw = dict(qualifiers={k: list(v) for k, v in tx_qualifiers.items()}) if tx_qualifiers else {}
+        kw.update(transcript_id=f"{m['id']}.t{i}", transcript_symbol=f"{m['id']}.sym{i}", protein_id=f"{m['id']}.p{i}" if t["cds"] else None,
                   transcript_type=B[t["type"]] if t["type"] else None, sequence_name="chr1", parent_or_seq_chunk_parent=par)
         if t["cds"]:
             fr = consistent_frames(t["cds"], m["strand"], t["f0"])
@@ -106,17 +107,22 @@ def _case(repo, it, S, spec):
         n, out = _case_on(repo, it, S, spec[:3], GENOME2)
         return n, [(k + " (second export, other sequence)", msg.replace(": ", " exported after the same models on another sequence: ", 1), q)
                    for k, msg, q in out if k.startswith(("CDS translation", "export", "record types"))]
+    if len(spec) == 5:
+        n, out = _case_on(repo, it, S, spec[:3], GENOME, stale=True)
+        return n, [(k + " (stale source qualifier)", msg, q) for k, msg, q in out if k.startswith(("CDS translation", "export", "record types"))]
     return _case_on(repo, it, S, spec, GENOME)
 
 
-def _case_on(repo, it, S, spec, genome):
+def _case_on(repo, it, S, spec, genome, stale=False):
     mi, flavor, upd = spec
     out = []
     m = MODELS[mi]
     par = chrom_parent(it, genome, alphabet="NT_EXTENDED")
-    g = build_gene_obj(it, S, m, par)
+    # stale: the source transcripts carry a /translation qualifier of their own (e.g. parsed from an older file); a translation
+    # written on request is the re-calculated one
+    g = build_gene_obj(it, S, m, par, {"translation": ["MSTALE"], "note": ["kept"]} if stale else None)
     f = repo.fn(f"{W}:gene_to_feature")
-    desc = f"gene {m['id']} flavor={flavor} update_translations={upd}"
+    desc = f"gene {m['id']} flavor={flavor} update_translations={upd}" + (" (transcripts carry a stale /translation qualifier)" if stale else "")
     table = "PROKARYOTE" if flavor == "PROKARYOTIC" else "DEFAULT"
     k, v = run(it, f, [g, it.enum("GenbankFlavor")[flavor], True, it.enum("TranslationTable")[table], upd], {}, None)
     if k != "ok":
@@ -168,7 +174,7 @@ def _case_on(repo, it, S, spec, genome):
             if upd:
                 if list(q.get("translation", [])) != [wt]:
                     out.append(("CDS translation", f"{desc}: /translation = {q.get('translation')}; translation of the CDS with the {flavor.lower()} table is {wt!r}", qn))
-            elif "translation" in q:
+            elif "translation" in q and not stale:
                 out.append(("CDS translation", f"{desc}: /translation written although not requested", qn))
             if t["f0"] != 0 and list(q.get("codon_start", [])) != [t["f0"] + 1] and list(q.get("codon_start", [])) != [str(t["f0"] + 1)]:
                 out.append(("CDS codon_start", f"{desc}: start frame {t['f0']} but /codon_start = {q.get('codon_start')}: the parser reads the start frame from codon_start", qn))
@@ -451,6 +457,74 @@ def _fc_case(repo, it, S, spec):
     return len(recs), out
 
 
+class SeqIOSink(FakeModule):
+    """Bio.SeqIO as the writer uses it: write(records, handle, format) - the records handed over are kept for inspection"""
+
+    def __init__(self):
+        self.written = []
+
+    def write(self, records, handle, format=None):
+        self.written.append((list(records), handle, format))
+        return len(self.written[-1][0])
+
+
+def _collections_case(repo, it, S, spec):
+    """collection_to_genbank itself (SeqRecord / Seq / SeqIO.write modelled): several collections in one call give one record
+    each, holding that collection's sequence and exactly the feature records of that collection exported alone"""
+    flavor, as_tuple, order = spec
+    out = []
+    f = repo.fn(f"{W}:collection_to_genbank")
+
+    def seq_record(interp, selfv, args, kwargs):
+        return Obj("BioSeqRecord", seq=args[0] if args else kwargs.get("seq"), name=kwargs.get("name"), id=kwargs.get("id"),
+                   description=kwargs.get("description"), features=[], annotations={})
+    it.hooks["SeqRecord"] = seq_record
+    it.hooks["Seq"] = lambda interp, selfv, args, kwargs: str(args[0])
+    groups = [(GENOME, [0, 2]), (GENOME2, [1, 5]), (GENOME, [3])]
+    groups = [groups[i] for i in order]
+
+    def collection(genome, idxs, name):
+        par = chrom_parent(it, genome, seq_id=name, alphabet="NT_EXTENDED")
+        genes = []
+        for i in idxs:
+            g = build_gene_obj(it, S, MODELS[i], par)
+            genes.append(g)
+        return mk_collection(it, genes, None, sequence_name=name, parent_or_seq_chunk_parent=par)
+
+    def shown(rec):
+        return (rec.fields["type"], sorted(parts_of(rec.fields["location"])), rec.fields.get("strand"),
+                sorted((k, tuple(v) if isinstance(v, (list, tuple)) else v) for k, v in rec.fields["qualifiers"].items()))
+    cols = [collection(gn, idxs, f"seq{j}") for j, (gn, idxs) in enumerate(groups)]
+    alone = []
+    for c in cols:
+        sink = SeqIOSink()
+        it.overrides["SeqIO"] = sink
+        k, v = run(it, f, [[c], "sink"], {"genbank_type": it.enum("GenbankFlavor")[flavor], "update_translations": True}, None)
+        if k != "ok" or len(sink.written) != 1 or len(sink.written[0][0]) != 1:
+            return 1, [("export", f"collection_to_genbank of one collection ({flavor}) -> {k}:{v if k != 'ok' else len(sink.written)}", f.qual)]
+        alone.append(sink.written[0][0][0])
+    sink = SeqIOSink()
+    it.overrides["SeqIO"] = sink
+    arg = tuple(cols) if as_tuple else list(cols)
+    k, v = run(it, f, [arg, "sink"], {"genbank_type": it.enum("GenbankFlavor")[flavor], "update_translations": True}, None)
+    desc = f"collection_to_genbank({'tuple' if as_tuple else 'list'} of {len(cols)} collections, {flavor})"
+    if k != "ok" or len(sink.written) != 1:
+        return 1, [("export", f"{desc} -> {k}:{v}", f.qual)]
+    recs = sink.written[0][0]
+    if len(recs) != len(cols):
+        return 1, [("one record per collection", f"{desc}: {len(recs)} records handed to SeqIO.write", f.qual)]
+    for j, (rec, ref, (gn, idxs)) in enumerate(zip(recs, alone, groups)):
+        if rec.fields["seq"] != gn or rec.fields["name"] != f"seq{j}":
+            out.append(("record sequence", f"{desc}: record {j} holds sequence {rec.fields['seq'][:12]}.. named {rec.fields['name']}; collection {j} "
+                        f"has {gn[:12]}.. named seq{j}", f.qual))
+        a, b = [shown(x) for x in rec.fields["features"]], [shown(x) for x in ref.fields["features"]]
+        if a != b:
+            out.append(("records of a joint export = records of each collection exported alone",
+                        f"{desc}: record {j} carries {len(a)} feature records {[x[0] for x in a]}; collection {j} exported alone gives {len(b)}: "
+                        f"{[x[0] for x in b]}", f.qual))
+    return sum(len(r_.fields["features"]) for r_ in recs), out
+
+
 _W = {}
 
 
@@ -470,13 +544,17 @@ def _runner(repo, fn):
 def rk_writer(ctx):
     specs = [(i, fl, upd) for i in range(len(MODELS)) for fl in ("PROKARYOTIC", "EUKARYOTIC") for upd in (False, True)]
     specs += [(i, fl, True, "second") for i in range(len(MODELS)) for fl in ("PROKARYOTIC", "EUKARYOTIC")]
+    specs += [(i, fl, True, "stale", None) for i in range(len(MODELS)) if any(t["cds"] for t in MODELS[i]["txs"]) for fl in ("PROKARYOTIC", "EUKARYOTIC")]
     from ..par import pmap
     results = pmap(_runner(ctx.repo, _case), specs, min_items=4)
     results += pmap(_runner(ctx.repo, _fc_case), [("PLUS",), ("MINUS",)], min_items=4)
+    results += pmap(_runner(ctx.repo, _collections_case), [(fl, tp, order) for fl in ("PROKARYOTIC", "EUKARYOTIC") for tp in (False, True)
+                                                           for order in ((0, 1), (1, 0, 2))], min_items=4)
     _report(ctx, "C12.RK", results, [(f"{W}:gene_to_feature", "record types / locations / identifiers"),
                                      (f"{W}:transcripts_to_feature", "flavour-dependent transcript records"),
                                      (f"{W}:add_cds_feature", "CDS record and translation"),
                                      (f"{W}:feature_intervals_to_features", "feature records"),
+                                     (f"{W}:collection_to_genbank", "one record per collection, each with its own sequence and features"),
                                      ("location.location_impl:CompoundInterval.to_compound_location", "one part per block, unshifted")])
 
 
